@@ -84,7 +84,7 @@ Theorem C19_atomic_commit_only_by_rename :
 Proof. exact committed_step. Qed.
 Print Assumptions C19_atomic_commit_only_by_rename.
 
-(* What the validation accepts (links_ok = false is the code with the F9 repair). *)
+(* What the validation accepts (links_ok = false is the code with the F19 repair). *)
 Theorem C19_entry_ok_meaning :
   forall links_ok e,
     entry_check links_ok e = 0 <->
@@ -118,6 +118,17 @@ Theorem C19_confined_extraction :
               /\ nolinks (w ++ d).
 Proof. exact extract_confined. Qed.
 Print Assumptions C19_confined_extraction.
+
+(* F19: the code before the repair (links_ok = true) is confined as well on every archive that
+   contains no symbolic or hard link entry; C19_F19_unfixed_witness below shows that it is not on
+   one that does. *)
+Theorem C19_confined_outside_known :
+  forall dest es d, has_link es = false -> nolinks d ->
+    exists w, result_fs (extract true dest d es) = w ++ d
+              /\ Forall (fun x => path_prefix (dest ++ [target_name]) (fst x) = true) w
+              /\ nolinks (w ++ d).
+Proof. exact extract_confined_outside_known. Qed.
+Print Assumptions C19_confined_outside_known.
 
 (* An entry that fails validation stops the extraction before anything is written for it or for
    any later entry. *)
@@ -211,7 +222,7 @@ Example C19_roundtrip_example :
     /\ lookup d (dest_ex ++ inc ++ [nC]) = Some NDir.
 Proof. eexists. repeat split; vm_compute; reflexivity. Qed.
 
-(* F9 (repaired): `target/a -> ..` followed by `target/a/evil`. Before the repair the second entry
+(* F19 (repaired): `target/a -> ..` followed by `target/a/evil`. Before the repair the second entry
    lands in dest itself, outside dest/target; with the repair the link entry is rejected (code 4)
    and nothing at all is written. *)
 Definition str_of (l : list N) : str := l.
@@ -221,13 +232,16 @@ Definition f9_archive : list tentry :=
   [ {| te_raw := raw_target_a; te_cksum_ok := true; te_kind := KSymlink [46; 46]; te_data := [] |};
     {| te_raw := raw_target_a_evil; te_cksum_ok := true; te_kind := KFile; te_data := [1; 2] |} ].
 
-Example C19_F9_unfixed_witness :
+Example C19_F19_unfixed_witness :
   exists d, extract true dest_ex [] f9_archive = XOk d
             /\ lookup d (dest_ex ++ [[101; 118; 105; 108]]) = Some (NFile [1; 2])
             /\ path_prefix (dest_ex ++ [target_name]) (dest_ex ++ [[101; 118; 105; 108]]) = false.
 Proof. eexists. repeat split; vm_compute; reflexivity. Qed.
 
-Example C19_F9_fixed :
+Example C19_F19_known_class : has_link f9_archive = true.
+Proof. vm_compute. reflexivity. Qed.
+
+Example C19_F19_fixed :
   extract false dest_ex [] f9_archive = XRejected 4 [].
 Proof. vm_compute. reflexivity. Qed.
 
